@@ -62,6 +62,13 @@ package archiver
 //@   assert Wait(globalBucketManager)#1: [bucket-key] @C13 arg1 == req.URL.Host // C13: requests to a host (the request's host[:port]) draw from that host's bucket
 //@   assert AdjustOnFailure(globalBucketManager)#1: [same-bucket] @C13 didWait == 1 ==> arg1 == waitedHost // C13: a 429-class / 5xx answer is reported to the bucket the request drew its token from
 //@   assert OnSuccess(globalBucketManager)#1: [same-bucket] @C13 didWait == 1 ==> arg1 == waitedHost // C13: success is reported to the same bucket
+//@   assert OnSuccess(globalBucketManager)#1: [only-good] @C13 !isBadStatusCode && !isDiscardedChallengePage // C13: after a 429, 403, 408 or 425 no request to that host is released until a penalty has elapsed (an answer of the retry class - bad status or discarded challenge page, the only way a 403 reaches the limiter - is never reported as a success)
+//@   assert AdjustOnFailure(globalBucketManager)#1: [status] @C13 arg2 == resp.StatusCode // C13: the limiter is told the status the server answered
+//@   local reported int = 1
+//@   after AdjustOnFailure(globalBucketManager)#1: reported = 1
+//@   after OnSuccess(globalBucketManager)#1: reported = 1
+//@   loop retry invariant [answer-reported] @C13 globalBucketManager != nil ==> reported == 1 // C13: every answer received is reported to the host's bucket (failure or success) before the next attempt
+//@   ensures [answer-reported] @C13 globalBucketManager != nil ==> reported == 1
 //@   loop retry invariant [bucket-host] @C13 didWait == 1 ==> req.URL.Host == waitedHost
 //@   local gaveUp int = 0
 //@   after SetStatus(item)#1: gaveUp = 1
@@ -75,7 +82,7 @@ package archiver
 //@   assert WithValue(*): [attaches-own] @C02 istype(arg2, chan struct{}) && unbox(arg2, chan struct{}) == feedbackChan && istype(arg1, string) && unbox(arg1, string) == "feedback" // C02: feedback channel in request context (the channel this fetch will wait on is the one put into its request's context under the key the WARC writer looks up)
 //@   after WithValue(*): attached = feedbackChan
 //@   local pendingFb int = 0
-//@   after Do(*): sentWith = attached; fbWaited = 0; pendingFb = ite(opResult1 == nil && !config.config.WARCWriteAsync, 1, 0)
+//@   after Do(*): sentWith = attached; fbWaited = 0; pendingFb = ite(opResult1 == nil && !config.config.WARCWriteAsync, 1, 0); reported = ite(opResult1 == nil, 0, 1)
 //@   loop retry invariant [written-before-retry] @C02 pendingFb == 0 // C02: with synchronous WARC writing every response the crawler fetched is stored before the seed is finished (a response that is retried has been written - its feedback received - before the next attempt)
 //@   ensures [written-before-return] @C02 pendingFb == 0 // C02: with synchronous WARC writing, by the time a seed is reported finished every response the crawler fetched for it is stored (the fetch of a node returns only after the WARC writer signalled for every response it received, also when it gives up)
 //@   assert recv(*): [closed-before-wait] @C16,C03 http.nOpened() - io.nCloses() <= old(http.nOpened() - io.nCloses()) // C16: goroutines ... do not grow with the number of seeds / C03: returns within bounded time (the fetch waits for the WARC writer only after the response it was handed has been closed: the writer gets the exchange when the connection closes, so a wait before the close never ends)
